@@ -132,6 +132,20 @@ func checkRoundTrip(e *v1x.Env, v int64, universe [][]byte, rng *rand.Rand, ligh
 		if lv, _ := e2.T.GetLatestVersion(); lv != v {
 			e2.Bad("exim|import|"+tag+"-version", "imported tree reports latest version %d, want %d", lv, v)
 		}
+		// exactly the imported version is visible, also for a freshly opened handle
+		h2 := e2.OpenHandle(cfg)
+		if _, err := h2.Load(); err != nil {
+			e2.Bad("exim|import|"+tag+"-reopen", "Load() on the imported store: %v", err)
+		} else {
+			for hi, h := range []*iavl.MutableTree{e2.T, h2} {
+				if av := h.AvailableVersions(); len(av) != 1 || int64(av[0]) != v {
+					e2.Bad("exim|import|"+tag+"-available", "after importing version %d AvailableVersions()=%v (handle %d)", v, av, hi)
+				}
+				if v > 1 && h.VersionExists(v-1) {
+					e2.Bad("exim|import|"+tag+"-phantom-version", "after importing version %d, VersionExists(%d) is true (handle %d)", v, v-1, hi)
+				}
+			}
+		}
 		if !light {
 			e2.CheckAllVersions(universe, 2)
 		} else if i2, err := e2.T.GetImmutable(v); err == nil {
